@@ -28,7 +28,8 @@ Definition touched (o : op) : list nat :=
   match o with
   | OSwap i j => [i; j]
   | OSetScalar i _ _ | OSetStr i _ _ | OSetNode i _ _ _ | OAssign i _ _ _ | OClear i _
-  | OCopyNew i _ | OStrTouch i _ | OStrAppend i _ _ | OCont i _ _ _ _ _ => [i]
+  | OCopyNew i _ | OStrTouch i _ | OStrAppend i _ _ | OCont i _ _ _ _ _
+  | OAssignStrFrom i _ _ _ | OAssignNodeFrom i _ _ _ _ => [i]
   end.
 
 Lemma getv_vupd_var_other vs i p f j : j <> i -> getv (fst (vupd_var vs i p f)) j = getv vs j.
@@ -42,7 +43,7 @@ Proof. unfold vupd_var. destruct (vupd p f (getv vs i)). cbn [fst]. apply upd_le
 
 Theorem spec_frame vs o j : ~ In j (touched o) -> getv (fst (spec_step vs o)) j = getv vs j.
 Proof.
-  destruct o as [i p sc|i p b|i p k items|i p j0 sp|i p|i j0|i j0|i p|i p b|i p k c j0 sp];
+  destruct o as [i p sc|i p b|i p k items|i p j0 sp|i p|i j0|i j0|i p|i p b|i p k c j0 sp|i p j0 sp|i p j0 sp k];
     cbn [touched In]; intro N; unfold spec_step.
   - destruct (i <? length vs)%nat; auto. rewrite let_pair. cbn [fst]. apply getv_vupd_var_other. lia.
   - destruct (i <? length vs)%nat; auto. rewrite let_pair. cbn [fst]. apply getv_vupd_var_other. lia.
@@ -63,11 +64,18 @@ Proof.
     rewrite let_pair. destruct (snd (vupd_var vs i p (vcont k CTouch VNull))).
     + destruct c; try destruct (vread sp _); cbn [fst]; rewrite ?getv_vupd_var_other by lia; auto.
     + cbn [fst]. apply getv_vupd_var_other. lia.
+  - destruct ((i <? length vs)%nat && (j0 <? length vs)%nat); auto.
+    destruct (vread sp (getv vs j0)) as [[| b |]|]; auto.
+    rewrite let_pair. destruct (snd (vupd_var vs i p (fun v => v))); cbn [fst]; rewrite ?getv_vupd_var_other by lia; auto.
+  - destruct ((i <? length vs)%nat && (j0 <? length vs)%nat); auto.
+    rewrite let_pair. destruct (snd (vupd_var vs i p (fun v => v))).
+    + destruct (vread sp _); [rewrite let_pair|]; cbn [fst]; rewrite ?getv_vupd_var_other by lia; auto.
+    + cbn [fst]. apply getv_vupd_var_other. lia.
 Qed.
 
 Theorem spec_step_length vs o : length (fst (spec_step vs o)) = length vs.
 Proof.
-  destruct o as [i p sc|i p b|i p k items|i p j0 sp|i p|i j0|i j0|i p|i p b|i p k c j0 sp]; unfold spec_step.
+  destruct o as [i p sc|i p b|i p k items|i p j0 sp|i p|i j0|i j0|i p|i p b|i p k c j0 sp|i p j0 sp|i p j0 sp k]; unfold spec_step.
   - destruct (i <? length vs)%nat; auto. rewrite let_pair. cbn [fst]. apply vupd_var_length.
   - destruct (i <? length vs)%nat; auto. rewrite let_pair. cbn [fst]. apply vupd_var_length.
   - destruct ((i <? length vs)%nat && forallb (fun it => (snd it <? length vs)%nat) items); auto.
@@ -84,6 +92,13 @@ Proof.
   - destruct ((i <? length vs)%nat && (j0 <? length vs)%nat); auto.
     rewrite let_pair. destruct (snd (vupd_var vs i p (vcont k CTouch VNull))).
     + destruct c; try destruct (vread sp _); cbn [fst]; rewrite ?vupd_var_length; auto.
+    + cbn [fst]. apply vupd_var_length.
+  - destruct ((i <? length vs)%nat && (j0 <? length vs)%nat); auto.
+    destruct (vread sp (getv vs j0)) as [[| b |]|]; auto.
+    rewrite let_pair. destruct (snd (vupd_var vs i p (fun v => v))); cbn [fst]; rewrite ?vupd_var_length; auto.
+  - destruct ((i <? length vs)%nat && (j0 <? length vs)%nat); auto.
+    rewrite let_pair. destruct (snd (vupd_var vs i p (fun v => v))).
+    + destruct (vread sp _); [rewrite let_pair|]; cbn [fst]; rewrite ?vupd_var_length; auto.
     + cbn [fst]. apply vupd_var_length.
 Qed.
 
@@ -115,26 +130,122 @@ Proof.
   rewrite nth_upd_same by auto. auto.
 Qed.
 
-(* the value an assignment-like operation stores *)
-Definition assigned_value (o : op) : option (nat * path * value) :=
+(* a mutable navigation whose leaf leaves the node it reaches as it is changes no value *)
+Lemma upd_nth_same {A} (l : list A) d : forall i, upd i (nth i l d) l = l.
+Proof. induction l as [|h t IH]; intros [|i]; cbn; auto. f_equal. apply IH. Qed.
+
+Lemma vopen_node k v ks vs i : vopen k v = (ks, vs) -> (i < length vs)%nat -> v = VNode k ks vs.
+Proof.
+  destruct v as [s|s|k' ks' vs']; cbn [vopen]; intros V L; try (injection V as <- <-; cbn in L; lia).
+  destruct (kind_eqb k k') eqn:K; [|injection V as <- <-; cbn in L; lia].
+  injection V as <- <-. destruct k, k'; try discriminate; reflexivity.
+Qed.
+
+Lemma vupd_fix f : forall p v x, vread p v = Some x -> f x = x -> vupd p f v = (v, true).
+Proof.
+  induction p as [|[k s] p' IH]; intros v x R FX; cbn [vread vupd] in *.
+  - injection R as ->. rewrite FX. reflexivity.
+  - destruct (vopen k v) as [ks vs] eqn:V.
+    destruct (find_child ks (length vs) s) as [i|] eqn:FC; [|discriminate].
+    pose proof (find_child_lt _ _ _ _ FC) as Li.
+    rewrite (IH _ _ R FX). rewrite upd_nth_same. rewrite (vopen_node k v ks vs i V Li). reflexivity.
+Qed.
+
+Lemma vupd_var_fix f vs j p x : vread p (getv vs j) = Some x -> f x = x -> vupd_var vs j p f = (vs, true).
+Proof.
+  intros R FX. unfold vupd_var. rewrite (vupd_fix f p _ x R FX). unfold getv. rewrite upd_nth_same. reflexivity.
+Qed.
+
+
+(* whether a path resolves does not depend on what is done at its end *)
+Lemma vupd_snd f g : forall p v, snd (vupd p f v) = snd (vupd p g v).
+Proof.
+  induction p as [|[k s] p' IH]; intros v; cbn [vupd]; auto.
+  destruct (vopen k v) as [ks vs]. destruct (find_child ks (length vs) s) as [i|]; auto.
+  specialize (IH (nth i vs VNull)).
+  destruct (vupd p' f (nth i vs VNull)) as [c1 o1]. destruct (vupd p' g (nth i vs VNull)) as [c2 o2]. exact IH.
+Qed.
+
+Lemma vupd_var_snd f g vs i p : snd (vupd_var vs i p f) = snd (vupd_var vs i p g).
+Proof.
+  unfold vupd_var. pose proof (vupd_snd f g p (getv vs i)) as Q.
+  destruct (vupd p f (getv vs i)) as [a1 o1]. destruct (vupd p g (getv vs i)) as [a2 o2]. exact Q.
+Qed.
+
+(* the navigation of the destination alone (identity at the end) changes no value when it resolves *)
+Lemma vupd_var_id_ok vs i p : snd (vupd_var vs i p (fun v => v)) = true -> fst (vupd_var vs i p (fun v => v)) = vs.
+Proof.
+  intro OK. unfold vupd_var in *.
+  pose proof (vread_vupd (fun v => v) p (getv vs i)) as RV.
+  destruct (vupd p (fun v => v) (getv vs i)) as [v1 ok1] eqn:U. cbn [fst snd] in *.
+  destruct (RV OK) as (v0 & R0 & _).
+  pose proof (vupd_fix (fun v => v) p (getv vs i) v0 R0 eq_refl) as Q. rewrite U in Q. injection Q as -> _.
+  unfold getv. apply upd_nth_same.
+Qed.
+
+(* the value an assignment-like operation stores at (variable, path), read in the state before it *)
+Definition assigned_value (vs : list value) (o : op) : option (nat * path * value) :=
   match o with
   | OSetScalar i p sc => Some (i, p, VS sc)
   | OSetStr i p b => Some (i, p, VStr b)
   | OClear i p => Some (i, p, VNull)
+  | OSetNode i p k items =>
+      let '(ks, xs) := vbuild k (map (fun it => (fst it, getv vs (snd it))) items) [] [] in Some (i, p, VNode k ks xs)
+  | OAssign i p j sp => option_map (fun x => (i, p, x)) (vread sp (getv vs j))
+  | OAssignStrFrom i p j sp => match vread sp (getv vs j) with Some (VStr b) => Some (i, p, VStr b) | _ => None end
+  | OAssignNodeFrom i p j sp k =>
+      option_map (fun x => let '(ks, xs) := vopen k x in (i, p, VNode k ks xs)) (vread sp (getv vs j))
   | _ => None
   end.
 
 Theorem reports_last_assigned vs o i p x :
-  assigned_value o = Some (i, p, x) -> snd (spec_step vs o) = Done ->
+  assigned_value vs o = Some (i, p, x) -> snd (spec_step vs o) = Done ->
   vread p (getv (fst (spec_step vs o)) i) = Some x.
 Proof.
-  destruct o as [i' p' sc|i' p' b| | |i' p'| | | | |]; cbn [assigned_value]; intro E; try discriminate;
-    injection E as -> -> <-; unfold spec_step;
-    (destruct (i <? length vs)%nat eqn:Li; [|cbn [snd]; discriminate]); apply Nat.ltb_lt in Li;
-    rewrite let_pair; cbn [fst snd]; intro OK.
-  all: match goal with |- vread _ (getv (fst (vupd_var _ _ _ ?f)) _) = _ =>
-         destruct (snd (vupd_var vs i p f)) eqn:S; [|discriminate];
-         destruct (vupd_var_readback vs i p f Li S) as (v0 & _ & R); exact R end.
+  assert (RB : forall vs0 f, (i < length vs0)%nat -> snd (vupd_var vs0 i p f) = true ->
+                 forall v0, (forall v, f v = v0) -> vread p (getv (fst (vupd_var vs0 i p f)) i) = Some v0).
+  { intros vs0 f Li S v0 FV. destruct (vupd_var_readback vs0 i p f Li S) as (v1 & _ & R). rewrite R, FV. reflexivity. }
+  destruct o as [i' p' sc|i' p' b|i' p' k items|i' p' j sp|i' p'| | | | | |i' p' j sp|i' p' j sp k]; cbn [assigned_value]; intro E; try discriminate.
+  - injection E as -> -> <-. unfold spec_step.
+    destruct (i <? length vs)%nat eqn:Li; [|cbn [snd]; discriminate]. apply Nat.ltb_lt in Li.
+    rewrite let_pair. cbn [fst snd]. intro OK.
+    destruct (snd (vupd_var vs i p (fun _ => VS sc))) eqn:S; [|discriminate]. apply RB; auto.
+  - injection E as -> -> <-. unfold spec_step.
+    destruct (i <? length vs)%nat eqn:Li; [|cbn [snd]; discriminate]. apply Nat.ltb_lt in Li.
+    rewrite let_pair. cbn [fst snd]. intro OK.
+    destruct (snd (vupd_var vs i p (fun _ => VStr b))) eqn:S; [|discriminate]. apply RB; auto.
+  - rewrite let_pair in E. injection E as -> -> <-. unfold spec_step.
+    destruct ((i <? length vs)%nat && forallb (fun it => (snd it <? length vs)%nat) items) eqn:C; [|cbn [snd]; discriminate].
+    apply andb_true_iff in C. destruct C as [Li _]. apply Nat.ltb_lt in Li.
+    rewrite let_pair, let_pair. cbn [fst snd]. intro OK.
+    match goal with |- vread _ (getv (fst (vupd_var _ _ _ ?f)) _) = _ => destruct (snd (vupd_var vs i p f)) eqn:S; [|discriminate] end.
+    apply RB; auto.
+  - destruct (vread sp (getv vs j)) as [x0|] eqn:R; [|discriminate]. cbn [option_map] in E. injection E as -> -> <-.
+    unfold spec_step.
+    destruct ((i <? length vs)%nat && (j <? length vs)%nat) eqn:C; [|cbn [snd]; discriminate].
+    apply andb_true_iff in C. destruct C as [Li _]. apply Nat.ltb_lt in Li.
+    rewrite let_pair. destruct (snd (vupd_var vs i p (fun v => v))) eqn:S; [|cbn [snd]; discriminate].
+    rewrite (vupd_var_id_ok vs i p S), R. cbn [fst snd]. intros _.
+    apply RB; auto. rewrite (vupd_var_snd _ (fun v => v)). exact S.
+  - injection E as -> -> <-. unfold spec_step.
+    destruct (i <? length vs)%nat eqn:Li; [|cbn [snd]; discriminate]. apply Nat.ltb_lt in Li.
+    rewrite let_pair. cbn [fst snd]. intro OK.
+    destruct (snd (vupd_var vs i p (fun _ => VNull))) eqn:S; [|discriminate]. apply RB; auto.
+  - destruct (vread sp (getv vs j)) as [[|b|]|] eqn:R; try discriminate. injection E as -> -> <-.
+    unfold spec_step.
+    destruct ((i <? length vs)%nat && (j <? length vs)%nat) eqn:C; [|cbn [snd]; discriminate].
+    apply andb_true_iff in C. destruct C as [Li _]. apply Nat.ltb_lt in Li.
+    rewrite R, let_pair. destruct (snd (vupd_var vs i p (fun v => v))) eqn:S; [|cbn [snd]; discriminate].
+    rewrite (vupd_var_id_ok vs i p S). cbn [fst snd]. intros _.
+    apply RB; auto. rewrite (vupd_var_snd _ (fun v => v)). exact S.
+  - destruct (vread sp (getv vs j)) as [x0|] eqn:R; [|discriminate]. cbn [option_map] in E.
+    rewrite let_pair in E. injection E as -> -> <-.
+    unfold spec_step.
+    destruct ((i <? length vs)%nat && (j <? length vs)%nat) eqn:C; [|cbn [snd]; discriminate].
+    apply andb_true_iff in C. destruct C as [Li _]. apply Nat.ltb_lt in Li.
+    rewrite let_pair. destruct (snd (vupd_var vs i p (fun v => v))) eqn:S; [|cbn [snd]; discriminate].
+    rewrite (vupd_var_id_ok vs i p S), R, let_pair. cbn [fst snd]. intros _.
+    apply RB; auto. rewrite (vupd_var_snd _ (fun v => v)). exact S.
 Qed.
 
 Theorem copy_reports_source vs i j :
